@@ -720,7 +720,7 @@ func main() {
 		}
 		cls := fmt.Sprintf("%s|in2=%v|out2=%v|wd=%v|certs=%s|prop=%v|don=%v|mint=%s|coin%s|asset:%s", en, s.TwoIn, s.TwoOut, s.Wd >= 0, certNames(s.Certs), s.Prop, s.Don, mv.name, v.Term, assetDeltas[v.ADelta])
 		c.Eval(cls, fmt.Sprintf("oracle-balanced=%v/rule-accepts=%v/list-accepts=%v", balanced, r.dirAcc, r.listAcc))
-		if s.Era == EraConway && len(s.Certs) == 1 && s.Certs[0] == kindIdx("reg_drep(16)") && s.Mint == 1 && s.TwoIn && !s.TwoOut && s.Prop && s.Don && s.Wd >= 0 && (v.Delta == 0 || v.Term == "+deposit:reg_drep(16)") && v.ADelta <= 1 {
+		if i < 2 || s.Era == EraConway && len(s.Certs) == 1 && s.Certs[0] == kindIdx("reg_drep(16)") && s.Mint == 1 && s.TwoIn && s.TwoOut && s.Prop && s.Don && s.Wd >= 0 && s.Fee == 1 && (v.Delta == 0 || v.Term == "+deposit:reg_drep(16)") && v.ADelta <= 1 {
 			c.Sample(replay)
 		}
 		if balanced {
